@@ -142,6 +142,11 @@ def features(pl, fmt_keywords=FMT_KEYWORDS_FALLBACK):
             elif k == "Ident" and isinstance(v, list):
                 ident_expr_parts(v)
             elif k == "Range" and isinstance(v, dict):
+                st = v.get("start")
+                if isinstance(st, dict) and isinstance(st.get("Unary"), dict):
+                    st = st["Unary"].get("expr")
+                if isinstance(st, dict) and "Param" in st:
+                    fs.add("param-range")
                 for side in ("start", "end"):
                     b = v.get(side)
                     if isinstance(b, dict) and isinstance(b.get("Binary"), dict) and b["Binary"].get("op") == "Pow" and right_of_binary:
